@@ -425,7 +425,9 @@ func replay(t *testing.T, s Spec, st *stats, ks []known) {
 		st.add(s.ID, c, r, s.MaxSamples)
 		if f != nil {
 			failed++
-			last = f
+			if last == nil || matchKnown(ks, last) != "" {
+				last = f // keep the first failure that no known finding explains; otherwise the latest
+			}
 			if f.Fatal {
 				break
 			}
